@@ -83,14 +83,13 @@ theorem C07_nearest_wins_spec (cs : List Cls) (taken : List String) (ms : List N
         (fun m => (Dspec cs taken m).find? (fun a => a.name == n)) := by
   rw [specInh_nil_eq_Ss, Ss_find]
 
-/-- on the model's table of a well-formed hierarchy without a re-exporting plain class (K07a) the
-    collector computes exactly the declarative inherited block -/
+/-- on the model's table of a hierarchy (plain classes anywhere in the MRO included) the collector computes
+    exactly the declarative inherited block -/
 theorem C07_collect_is_declarative {cs : List Cls} {tbl : Table} (taken : List String) (hinv : TInv cs tbl)
-    (hmro : ∀ m, m < tbl.length → (mroOf cs m).head? = some m ∧ ∀ m' ∈ mroOf cs m, m' < tbl.length)
     (hnodup : ∀ m, (names (specFinalOwn cs m)).Nodup)
-    (ms : List Nat) (hms : ∀ m ∈ ms, m < tbl.length) (hstray : strayPlain cs ms = false) :
+    (ms : List Nat) (hms : ∀ m ∈ ms, m < tbl.length) :
     collectMro (mroOf cs) tbl taken ms = specInh cs taken [] ms :=
-  collectMro_eq_spec taken hinv hmro hnodup ms hms hstray
+  collectMro_eq_spec taken hinv hnodup ms hms
 
 /-- **C07_views_agree**: index access, name access, `fields_dict`, `__match_args__` and the initializer's
     parameter list are all read off the same list; with distinct names the property installed for a name
@@ -199,9 +198,11 @@ theorem C07_model_meets_spec (c : Case) (hwf : wf c = true) (hk : known c = []) 
 theorem C07_K7_witness : ∃ c, wf c = true ∧ "K7" ∈ known c ∧ spec c (model c) = false :=
   ⟨witnessK7, by decide⟩
 
-/-- witness for K07a: a plain class re-exporting a distant attrs class breaks the order (define) -/
-theorem C07_K07a_witness : ∃ c, wf c = true ∧ "K07a" ∈ known c ∧ spec c (model c) = false :=
-  ⟨witnessK07a, by decide⟩
+/-- regression for the repaired K07a (a plain class between the class and a distant attrs class, another
+    attrs class in between: A(x) ← P plain, A ← B(y), D(P, B)): no longer a deviation — distant first -/
+theorem C07_K07a_fixed : wf witnessK07a = true ∧ known witnessK07a = [] ∧
+    (model witnessK07a).fields.map (fun f => (f.name, f.tag)) = [("x", some 0), ("y", some 2)] ∧
+    spec witnessK07a (model witnessK07a) = true := by decide
 
 /-- non-vacuity of `C07_model_meets_spec`: well-formed cases without known deviation exist — the #428
     diamond collected by MRO, and a legacy chain through a plain class with shadowing -/
@@ -217,6 +218,6 @@ example : ChainOk (fun b => if b = 0 then [attrOf "x" (o0 0) none, attrOf "y" (o
     (fun b => if b = 0 then [0] else [1, 0])
     [some [attrOf "x" (o0 0) none, attrOf "y" (o0 0) none],
      some [inherit (attrOf "x" (o0 0) none), attrOf "y" (o0 1) none]] [1, 0] := by
-  simp [ChainOk, getattrAttrs, Tup, names, inherit, attrOf, o0]
+  simp [ChainOk, getattrAttrs, ownTuple, Tup, names, inherit, attrOf, o0]
 
 end Attrs.C07
